@@ -7,6 +7,8 @@ import (
 
 	"github.com/trustbloc/sidetree-core-go/pkg/document"
 
+	"github.com/trustbloc/sidetree-core-go/pkg/api/operation"
+	"github.com/trustbloc/sidetree-core-go/pkg/api/txn"
 	"github.com/trustbloc/sidetree-core-go/pkg/dochandler"
 	"github.com/trustbloc/sidetree-core-go/pkg/processor"
 
@@ -36,7 +38,7 @@ func extensionOps(ch *Chain, r *hx.Rng) []*ref.Op {
 }
 
 func checkC04(c *hx.Ctx) {
-	c.Rule("(a) base history ending in an applied deactivate, extended by 1-8 later-anchored or unpublished (time stamp before or after the deactivate) operations drawn from: valid updates/recovers/deactivates by every key that ever existed in the chain, duplicate creates, forgeries; result must stay deactivated/empty/no commitments; (b) the document handler with its default decorator must refuse update, recover and deactivate requests for that DID and record no writer Add / unpublished Put; (c) history containing a recover at (t,n), extended by valid updates anchored before (t,n) signed by the key the recover newly commits to or by older keys: result unchanged; non-trivial = extension contains at least one validly signed operation")
+	c.Rule("(a) base history ending in an applied deactivate, extended by 1-8 later-anchored or unpublished (time stamp before or after the deactivate) operations drawn from: valid updates/recovers/deactivates by every key that ever existed in the chain, duplicate creates, forgeries; result must stay deactivated/empty/no commitments; (b) the document handler with its default decorator must refuse update, recover and deactivate requests for that DID and record no writer Add / unpublished Put; (c) history containing a recover at (t,n), extended by valid updates anchored before (t,n) signed by the key the recover newly commits to or by older keys: result unchanged; (d) deactivates anchored through real batch files (alone, or next to a create / update of other DIDs), followed by a batch with a validly signed update of the deactivated DID: deactivated after every batch; (e) the deactivate (or superseding recover) anchored after earlier operations that reveal the same key but can never be applied (cycle-closing, self-committing, foreign signature): it still takes effect; non-trivial = extension contains at least one validly signed operation")
 	nCases := c.N(500, 6000)
 	root := c.Rng("cases")
 	seeds := make([]uint64, nCases)
@@ -247,6 +249,10 @@ func checkC04(c *hx.Ctx) {
 			c.Sample(3, map[string]interface{}{"kind": "recover-supersedes", "base": histString(H), "early_updates": histString(E), "result": kH})
 		}
 	})
+	c04ThroughBatchFiles(c)
+	c04AfterInapplicableCompetitor(c)
+	c.Floor("deactivate_after_inapplicable_competitor", 40)
+	c.Floor("deactivations_through_batch_files", 40)
 	c.Floor("deactivated_histories", 100)
 	c.Floor("long_form_of_deactivated_did", 50)
 	c.Floor("histories_crossing_the_genesis_of_a_stricter_version", 50)
@@ -255,4 +261,214 @@ func checkC04(c *hx.Ctx) {
 	c.Floor("intake_attempts:update", 50)
 	c.Floor("intake_attempts:recover", 50)
 	c.Floor("intake_attempts:deactivate", 50)
+}
+
+// c04ThroughBatchFiles: the deactivate reaches the operation store the way it does in production - batch files written by the
+// REAL OperationHandler, read back by the OperationProvider and stored by the TxnProcessor - alone in its batch or next to a
+// create / update of other DIDs, followed by a batch with a validly signed update of the deactivated DID (built before the
+// deactivation). After the deactivating batch and after every later one the DID resolves as deactivated, like the model.
+func c04ThroughBatchFiles(c *hx.Ctx) {
+	n := c.N(80, 1500)
+	root := c.Rng("batch-files")
+	seeds := make([]uint64, n)
+	for i := range seeds {
+		seeds[i] = root.U64()
+	}
+	hx.Parallel(n, 16, func(i int) {
+		if c.Violations() > 8 {
+			return
+		}
+		r := hx.NewRng(seeds[i], "c04b")
+		p := hx.BaseProtocol()
+		p.MaxDeltaSize, p.MaxOperationSize = 9000, 20000
+		cas, store := hx.NewMemCAS(), hx.NewOpStore()
+		v := hx.NewVersion(p, hx.VersionOpts{CAS: cas, Store: store})
+		pc := hx.NewClient(v)
+		mkDid := func(tag string) (*CDid, *BuiltOp) {
+			d, cr, err := NewCDid(r.Split(tag), ref.SHA256, []string{hx.Pick(r, ref.KeyTypes), "P-256"}, int64(p.MaxOperationTimeDelta), false,
+				[]interface{}{patchAddServices(svcEntry("s"+tag, "web", "https://example.com/"+tag))}, nil, nil, "")
+			if err != nil {
+				return nil, nil
+			}
+			d.Suffix = suffixOf(cr.Req, ref.SHA256)
+			return d, cr
+		}
+		X, crX := mkDid("x")
+		Y, crY := mkDid("y")
+		Z, crZ := mkDid("z")
+		if X == nil || Y == nil || Z == nil {
+			c.Violation("C04 client.NewCreateRequest refused valid inputs", nil)
+			return
+		}
+		upd := func(d *CDid, tag string) *BuiltOp {
+			b, err := d.Update([]interface{}{patchAddServices(svcEntry(tag, "web", "https://example.com/"+tag))}, 0, 0)
+			if err != nil {
+				return nil
+			}
+			return b
+		}
+		type item struct {
+			d *CDid
+			b *BuiltOp
+		}
+		H := map[*CDid][]*ref.Op{}
+		round := 0
+		replay := map[string]interface{}{}
+		anchorBatch := func(items []item) bool {
+			round++
+			var q []*operation.QueuedOperation
+			var kinds []string
+			for _, it := range items {
+				if it.b == nil {
+					c.Violation("C04 client builder refused valid inputs", nil)
+					return false
+				}
+				q = append(q, &operation.QueuedOperation{Type: operation.Type(it.b.Desc.Type), OperationRequest: it.b.Req, UniqueSuffix: it.d.Suffix, Namespace: hx.Namespace})
+				kinds = append(kinds, it.b.Desc.Type)
+			}
+			c.Eval()
+			replay["round"], replay["batch"] = round, kinds
+			info, err := v.Handler.PrepareTxnFiles(q)
+			if err != nil || len(info.AdditionalOperations) != 0 || len(info.ExpiredOperations) != 0 {
+				c.Violation(fmt.Sprintf("C04 batch %v of client-built requests (one per DID) was not written as a whole: %v", kinds, err), replay)
+				return false
+			}
+			for _, it := range items {
+				H[it.d] = append(H[it.d], Place(it.b.Desc, uint64(1000+10*round), uint64(round%3), fmt.Sprintf("ref%d", round), p.GenesisTime))
+			}
+			t := txn.SidetreeTxn{Namespace: hx.Namespace, AnchorString: info.AnchorString, TransactionTime: uint64(1000 + 10*round), TransactionNumber: uint64(round % 3),
+				ProtocolVersion: p.GenesisTime, CanonicalReference: fmt.Sprintf("ref%d", round)}
+			if _, err := v.TxnProc.Process(t); err != nil {
+				c.Violation(fmt.Sprintf("C04 anchored batch %v cannot be processed: %v", kinds, err), replay)
+				return false
+			}
+			for _, d := range []*CDid{X, Y, Z} {
+				if len(H[d]) == 0 {
+					continue
+				}
+				st, merr := ref.Resolve(H[d], ref.ResolveOpts{})
+				rm, err := processor.New("verif", store, pc).Resolve(d.Suffix)
+				if want, got := stKey(st, merr), rmKey(rm, err); want != got {
+					replay["history"] = replayOps(H[d])
+					c.Violation(fmt.Sprintf("C04 operations anchored through batch files (batch %d = %v): history %s\n   model:   %s\n   library: %s", round, kinds, histString(H[d]), want, got), replay)
+					return false
+				}
+			}
+			return true
+		}
+		if !anchorBatch([]item{{X, crX}, {Z, crZ}}) {
+			return
+		}
+		for k := 0; k < r.Intn(3); k++ {
+			if !anchorBatch([]item{{X, upd(X, fmt.Sprint("pre", k))}}) {
+				return
+			}
+		}
+		late := upd(X, "late") // validly signed for the state before the deactivation, anchored after it
+		de, err := X.Deactivate(0, 0)
+		if err != nil || late == nil {
+			c.Violation("C04 client builder refused valid inputs", nil)
+			return
+		}
+		var deBatch []item
+		switch i % 4 {
+		case 0:
+			deBatch = []item{{X, de}}
+		case 1:
+			deBatch = []item{{X, de}, {Y, crY}}
+		case 2:
+			deBatch = []item{{X, de}, {Z, upd(Z, "z1")}}
+		default:
+			deBatch = []item{{Y, crY}, {X, de}, {Z, upd(Z, "z1")}}
+		}
+		shuffled := make([]item, len(deBatch))
+		for a, b := range r.Perm(len(deBatch)) {
+			shuffled[a] = deBatch[b]
+		}
+		deBatch = shuffled
+		if !anchorBatch(deBatch) {
+			return
+		}
+		lateBatch := []item{{X, late}}
+		if r.Bool() {
+			lateBatch = append(lateBatch, item{Z, upd(Z, "z2")})
+		}
+		if !anchorBatch(lateBatch) {
+			return
+		}
+		rm, err := processor.New("verif", store, pc).Resolve(X.Suffix)
+		if err != nil || rm == nil || !rm.Deactivated || rm.UpdateCommitment != "" || rm.RecoveryCommitment != "" {
+			replay["history"] = replayOps(H[X])
+			c.Violation(fmt.Sprintf("C04 a DID deactivated through batch files (deactivating batch shape %d) does not resolve as deactivated after a later update: %s (err=%v)", i%4, rmKey(rm, err), err), replay)
+			return
+		}
+		c.Count("deactivations_through_batch_files")
+		c.Count(fmt.Sprintf("deactivating_batch_shape:%d", i%4))
+		c.Distinct(fmt.Sprintf("c04bf|%d|%v", i%4, labelsOf(H[X])))
+	})
+}
+
+// c04AfterInapplicableCompetitor: the deactivate (or the superseding recover) is not the first operation anchored for its
+// commitment - earlier ones reveal the same key but can never be applied (they commit to an already consumed commitment or to
+// their own key, carry a foreign signature, a tampered payload ...). They consume nothing: the later valid deactivate still
+// deactivates, and a validly signed update anchored after it has no effect.
+func c04AfterInapplicableCompetitor(c *hx.Ctx) {
+	n := c.N(60, 1000)
+	root := c.Rng("inapplicable-competitor")
+	seeds := make([]uint64, n)
+	for i := range seeds {
+		seeds[i] = root.U64()
+	}
+	hx.Parallel(n, 16, func(i int) {
+		if c.Violations() > 8 {
+			return
+		}
+		r := hx.NewRng(seeds[i], "c04c")
+		p := hx.BaseProtocol()
+		pc := hx.NewClient(hx.NewVersion(p, hx.VersionOpts{ParserOpts: hx.StrictResolution()}))
+		u := NewUniverse(r.Split("u"), ref.SHA256, p, []string{hx.Pick(r, ref.KeyTypes), "P-256"})
+		u.BuildAlphabet(1, 2)
+		var labels []string
+		wantDeact := true
+		switch i % 4 {
+		case 0:
+			labels = []string{"C", "r01", "r10", "d1", "u12"}
+		case 1:
+			labels = []string{"C", "r01", "r10", "r10", "d1", "u12", "r12"}
+		case 2:
+			labels = []string{"C", hx.Pick(r, []string{"r00", "rS", "rR", "rTI", "rSB"}), hx.Pick(r, []string{"r00", "rS", "dS", "dR"}), "d0", "u01", "r01"}
+		default:
+			// the superseding recover in the same position; the deactivate follows later
+			labels = []string{"C", "r01", "r10", "r12", "r20", "u20"}
+			wantDeact = false
+		}
+		var ops []*ref.Op
+		t := uint64(10)
+		for k, l := range labels {
+			o := u.Ops[l]
+			if o == nil {
+				c.Violation("C04 harness: unknown alphabet label "+l, nil)
+				return
+			}
+			t += uint64(1 + r.Intn(5))
+			ops = append(ops, Place(o, t, uint64(r.Intn(4)), fmt.Sprintf("ref%d", k), 0))
+		}
+		c.Eval()
+		st, merr := ref.Resolve(ops, ref.ResolveOpts{})
+		if merr != nil || st.Deactivated != wantDeact {
+			c.Violation(fmt.Sprintf("C04 harness: the model does not give the expected end state for %s", histString(ops)), nil)
+			return
+		}
+		want := stKey(st, merr)
+		for k := 0; k < 3; k++ {
+			rm, err := SUTResolve(pc, u.Suffix, ops, r.Perm(len(ops)))
+			if got := rmKey(rm, err); got != want {
+				c.Violation(fmt.Sprintf("C04 a valid deactivate / recover anchored after operations that reveal the same key but can never be applied did not take effect: %s\n   model:   %s\n   library: %s", histString(ops), want, got),
+					map[string]interface{}{"suffix": u.Suffix, "ops": replayOps(ops), "model": want, "library": got})
+				return
+			}
+		}
+		c.Count("deactivate_after_inapplicable_competitor")
+		c.Distinct("c04ic|" + histString(ops))
+	})
 }
